@@ -99,7 +99,6 @@ func (tu *TU) ResolveTypeName(t string) string {
 	return t
 }
 
-
 func (tu *TU) indexAnon() {
 	tu.Typedefs = map[string]string{}
 	for _, d := range tu.Root.Inner {
